@@ -116,7 +116,7 @@ macro_rules! check_myers {
                 Obj::new()
                     .s("impl", $name)
                     .b("pattern", $p)
-                    .b("text", t)
+                    .b("text", tail(t)).u("text_len", t.len() as u64)
                     .u("k", k as u64)
                     .d("equality", $cfg)
                     .u("use_of_this_object", ti as u64)
@@ -239,7 +239,7 @@ impl C09 {
                     let exp = expected_hits(&d, k);
                     let got = guard(|| u.find_all_end(p, t.iter(), k).collect::<Vec<_>>());
                     ctx.eval(1);
-                    let desc = |what: String| Obj::new().s("impl", $label).b("pattern", p).b("text", t).u("k", k as u64).u("capacity", cap as u64).s("what", &what).done();
+                    let desc = |what: String| Obj::new().s("impl", $label).b("pattern", p).b("text", tail(t)).u("text_len", t.len() as u64).u("k", k as u64).u("capacity", cap as u64).s("what", &what).done();
                     match got {
                         Ok(g) => {
                             if g != exp {
@@ -398,6 +398,20 @@ impl Monitor for C09 {
                 7 => {
                     let p = vec![b'A'; 20];
                     self.matcher_case(ctx, rng, &p, &[(vec![b'A'; 50], 2), (vec![b'C'; 50], 25), (vec![], 3)], &cfg, alpha);
+                }
+                8 | 9 if !ctx.tiny() => {
+                    // end positions beyond 2^16: a 70 000-symbol text with (noisy) copies of the pattern around position 65 536
+                    let m = if g == 8 { 12 } else { 70 };
+                    let p = rng.bytes_over(alpha, m);
+                    let mut t = rng.bytes_over(alpha, 70_000);
+                    for at in [65_500usize, 65_530, 65_536 - m / 2, 66_000, 70_000 - m] {
+                        t[at..at + m].copy_from_slice(&p);
+                        if at % 3 == 0 {
+                            t[at + m / 2] = b'N';
+                        }
+                    }
+                    ctx.count("texts_longer_than_65536", 1);
+                    self.matcher_case(ctx, rng, &p, &[(t.clone(), 2), (t, 0)], &cfg, b"ACGTN");
                 }
                 _ => self.distance_case(ctx, rng),
             }
